@@ -1,26 +1,37 @@
-# C18 — linked hash table and caches
-SRC = ["source/linked_hash_table.c", "source/cache.c", "source/lru_cache.c", "source/fifo_cache.c", "source/lifo_cache.c", "source/hash_table.c",
-       "source/common.c", "source/error.c", "source/math.c", "source/byte_buf.c", "source/string.c"]
-STUBS = ["base.c", "alloc_direct.c", "mem0.c", "memchr.c"]
+# C18 — linked hash table and FIFO / LIFO / LRU caches over the hash-table CONTRACT MODEL (stubs/hash_model.c; the real table is C02)
+SRC = ["source/linked_hash_table.c", "source/cache.c", "source/fifo_cache.c", "source/lifo_cache.c", "source/common.c", "source/error.c"]
+# source/lru_cache.c is #included by the harness (its private impl-vtable type is needed for a typed object)
+STUBS = ["base.c", "alloc_direct.c", "hash_model.c"]
 
-
-# CBMC resolves an indirect call to EVERY function of a compatible type (9 candidates for void(void*), among them s_element_destroy itself,
-# which makes the destructor chain look recursive).  The call sites below are restricted to the targets that the harness actually installs;
-# goto-instrument turns any other target into a failing assertion, so the restriction is checked, not assumed.
+# CBMC resolves an indirect call to EVERY function of a compatible type.  The call sites below are restricted to the targets that the
+# harness / the constructors actually install; goto-instrument turns any other target into a failing assertion, so the restriction is
+# checked, not assumed.
 FPR = {
-    "aws_hash_table_put.function_pointer_call.1": ["dk"], "aws_hash_table_put.function_pointer_call.2": ["s_element_destroy"],
-    "aws_hash_table_remove.function_pointer_call.1": ["dk"], "aws_hash_table_remove.function_pointer_call.2": ["s_element_destroy"],
-    "aws_hash_iter_delete.function_pointer_call.1": ["dk"], "aws_hash_iter_delete.function_pointer_call.2": ["s_element_destroy"],
-    "aws_hash_table_clear.function_pointer_call.1": ["dk"], "aws_hash_table_clear.function_pointer_call.2": ["s_element_destroy"],
+    "hm_hash.function_pointer_call.1": ["hash_fn"], "hm_eq.function_pointer_call.1": ["eq_fn"],
+    "hm_dk.function_pointer_call.1": ["dk"], "hm_dv.function_pointer_call.1": ["s_element_destroy"],
     "s_element_destroy.function_pointer_call.1": ["dv"], "aws_linked_hash_table_put.function_pointer_call.1": ["dk"],
-    "s_hash_for.function_pointer_call.1": ["hash_fn"], "s_safe_eq_check.function_pointer_call.1": ["eq_fn"],
 }
+VT = {1: ("s_fifo_cache_put", "aws_cache_base_default_find"), 2: ("s_lifo_cache_put", "aws_cache_base_default_find"), 3: ("s_lru_cache_put", "s_lru_cache_find")}
+NAMES = {0: "linked hash table", 1: "FIFO cache", 2: "LIFO cache", 3: "LRU cache"}
 
 
 def spec(tier):
     units, jobs = {}, []
-    VT = {1: ("s_fifo_cache_put", "aws_cache_base_default_find"), 2: ("s_lifo_cache_put", "aws_cache_base_default_find"), 3: ("s_lru_cache_put", "s_lru_cache_find")}
-    for kind, maxi, ops, hs in [(0, 2, "PP", "000"), (0, 2, "PP", "012"), (3, 2, "PPP", "000"), (3, 2, "PPPF", "013"), (1, 2, "PPP", "011")]:
+    progs = []
+    # (kind, capacity, operation script); '*' = the operation is the solver's choice (P F R C, and U M for the LRU cache);
+    # every operation's key is symbolic (4 key objects in 3 equality classes)
+    L = 3 if tier == "quick" else 4
+    for k in (0, 1, 2, 3):
+        for cap in (1, 2, 3):
+            progs.append((k, cap, "*" * L))
+    # longer programs: fixed puts (keys symbolic) around free operations
+    mixed = ["PPP*F"] if tier == "quick" else ["PP*PP", "PPP*F", "P*P*P", "PPPP*F", "PP*PPF", "PPP**"]
+    for k in (0, 1, 2, 3):
+        for ops in mixed:
+            progs.append((k, 2, ops))
+        if tier != "quick":
+            progs.append((k, 3, "PPPP*P"))
+    for kind, maxi, ops in progs:
         fpr = dict(FPR)
         if kind:
             fpr.update({"aws_cache_put.function_pointer_call.1": [VT[kind][0]], "aws_cache_find.function_pointer_call.1": [VT[kind][1]],
@@ -29,7 +40,23 @@ def spec(tier):
                         "aws_cache_destroy.function_pointer_call.1": ["aws_cache_base_default_destroy"],
                         "aws_lru_cache_use_lru_element.function_pointer_call.1": ["s_lru_cache_use_lru_element"],
                         "aws_lru_cache_get_mru_element.function_pointer_call.1": ["s_lru_cache_get_mru_element"]})
-        u = "c%d_%d_%s_%s" % (kind, maxi, ops, hs)
-        units[u] = dict(harness=["C18/h_cache.c"], sources=SRC, stubs=STUBS, defines={"KIND": kind, "MAXI": maxi, "OPS": '"%s"' % ops, "HSET": '"%s"' % hs, "NP": ops.count("P"), "KEYS": '"0312"', "VERIF_ALLOC_SIZES": "128,176,272,464"}, fp_restrict=fpr)
-        jobs.append(dict(unit=u, entry="h_cache_program", unwind=6, unwindset={"chk_state": 18, "r_find": 6, "r_erase": 6, "h_cache_program": 9, "verif_alloc_split": 6}, timeout=300, bounds="probe", what="probe"))
-    return dict(units=units, jobs=jobs, meta={})
+        u = "c%d_%d_%s" % (kind, maxi, ops)
+        np_ = ops.count("P") + ops.count("*")
+        units[u] = dict(harness=["C18/h_cache.c"], sources=SRC, stubs=STUBS, fp_restrict=fpr, native=False,
+                        defines={"KIND": kind, "MAXI": maxi, "OPS": '"%s"' % ops, "NP": np_, "HM_CAP": np_ + 1, "VERIF_TYPED_CALLOC": 1, "VERIF_TYPED_ACQUIRE_MANY": 1})
+        jobs.append(dict(unit=u, entry="h_cache_program", unwind=max(len(ops), np_ + 1, 4) + 2, unwindset={"chk_state": 18, "h_cache_program": 18}, timeout=600 if tier == "quick" else 3000,
+                         bounds="%s, capacity %d, script %s (P put, F find, R remove, C clear, U use-lru, M get-mru, * = any of them); key of every operation symbolic over 4 key objects in 3 "
+                                "equality classes (two equal-but-distinct pointers), hash codes symbolic 64-bit per class" % (NAMES[kind], maxi, ops),
+                         what="after every operation the real iteration list, count, find results and destructor counts equal an ordered reference map with the stated policy"))
+    meta = dict(
+        functions_encoded=["all of source/linked_hash_table.c", "all of source/cache.c", "all of source/fifo_cache.c, lifo_cache.c, lru_cache.c", "include/aws/common/linked_list.inl"],
+        bounds="every program of %d operations (operation and key of each step chosen by the solver), capacities 1..3; programs of 5-6 operations with 1-2 free operations "
+               "among fixed puts (keys symbolic), capacity 2-3; 4 key objects / 3 equality classes" % L,
+        stubs=["hash_model.c: source/hash_table.c replaced by the map its contracts describe (find/create/remove/clear/count; match = equal hash code and s_safe_eq_check); "
+               "the real table is decided against the same contracts in C02", "base.c", "alloc_direct.c with typed pools: list nodes and the cache object are statically typed objects, "
+               "release is tracked (double release / use of a released node is an assertion); every node / hash element is its own top-level object"],
+        out=["behaviour that depends on the real table's slot layout, growth or allocation failure", "element-pointer invalidation by the real table (model elements are stable)",
+             "scripts longer than the bound; capacities above the bound (policy code does not depend on the capacity other than through the comparison count > max_items)",
+             "max_items == 0 (constructors assert max_items)"],
+        assumptions=["hash_fn is a function of the key's equality class (consistent with eq_fn)", "aws_hash_table meets the contract modelled in stubs/hash_model.c (C02)"])
+    return dict(units=units, jobs=jobs, meta=meta, max_parallel=12)
